@@ -33,3 +33,141 @@ package txpool
 //@   ensures wfTB(timeBucket)
 //@   invariant @loop 0: 0 <= i && i <= newBaseIndex && newBaseIndex <= len(timeBucket.buckets) && sameSlice(timeBucket.buckets, old(timeBucket.buckets)) && timeBucket.TimeBase == old(timeBucket.TimeBase) && fresh(result) && unchanged(timeBucket.buckets)
 //@   nopanic
+
+// ---------------------------------------------------------------------------------------------------------------------
+// C18: the pending pool as a data structure (sequential half; every exported method runs under pool.RW, see guarded_by notes).
+// Representation invariant: every index in the hash map is inside txs; a pending transaction is indexed by its own hash at its own
+// position (hence no transaction is pending twice); pending transactions are well-formed (verified bodies).
+// lock discipline (the sequential-consistency half of "under any interleaving"): the pool's fields are only touched while pool.RW is
+// held; the private helpers require the lock, the exported methods take it
+//@ guarded_by TxPool.txs : TxPool.RW
+//@ guarded_by TxPool.cap : TxPool.RW
+//@ guarded_by TxPool.hashIndexMap : TxPool.RW
+//@ pred wfPoolTx(tx *types.Transaction) = tx.data.Amount != nil && types.boxOK(tx)
+//@ pred wfPool(p *TxPool) = defaultPoolCap >= 1 && defaultPoolCap <= 1<<30 && p != nil && p.hashIndexMap != nil && p.cap >= 1 && p.cap <= 1<<41 && len(p.txs) <= p.cap && len(p.txs) <= 1<<40 && forallKeys(h, p.hashIndexMap, 0 <= p.hashIndexMap[h] && p.hashIndexMap[h] < len(p.txs)) && forall(i, 0, len(p.txs), p.txs[i] != nil ==> wfPoolTx(p.txs[i]) && has(p.hashIndexMap, p.txs[i].Hash()) && p.hashIndexMap[p.txs[i].Hash()] == i)
+
+// sub-transactions of a box payload: decoded afresh on every call, determined by the payload bytes
+//@ func getSubTxs
+//@   props C18
+//@   requires tx != nil
+//@   modifies nothing
+//@   ensures fresh(result)
+//@   ensures types.boxBad(content(tx.data.Data)) ==> len(result) == 0
+//@   ensures !types.boxBad(content(tx.data.Data)) ==> len(result) == types.subCount(content(tx.data.Data))
+//@   ensures !types.boxBad(content(tx.data.Data)) && types.allSubsPresent(content(tx.data.Data)) ==> forall(i, 0, len(result), result[i] != nil)
+//@   ensures !types.boxBad(content(tx.data.Data)) ==> forall(i, 0, len(result), result[i] != nil ==> result[i].Hash() == types.subHash(content(tx.data.Data), i) && result[i].data.Expiration == types.subExpiry(content(tx.data.Data), i))
+//@   nopanic
+
+//@ func isTxTimeOut
+//@   props C18
+//@   requires tx != nil && types.boxOK(tx)
+//@   modifies nothing
+//@   ensures !result ==> tx.data.Expiration >= uint64(time)
+//@   ensures !result && tx.data.Type == params.BoxTx && !types.boxBad(content(tx.data.Data)) ==> forall(j, 0, types.subCount(content(tx.data.Data)), types.subExpiry(content(tx.data.Data), j) >= uint64(time))
+//@   invariant @loop 0: 0 <= $k && $k <= $n && forall(j, 0, $k, types.subExpiry(content(tx.data.Data), j) >= uint64(time))
+//@   nopanic
+
+//@ func (*TxPool).isTxExist
+//@   props C18
+//@   requires held(pool.RW) && wfPool(pool) && tx != nil && types.boxOK(tx)
+//@   modifies nothing
+//@   ensures !result ==> !has(pool.hashIndexMap, tx.Hash())
+//@   ensures !result && tx.data.Type == params.BoxTx && !types.boxBad(content(tx.data.Data)) ==> forall(j, 0, types.subCount(content(tx.data.Data)), !has(pool.hashIndexMap, types.subHash(content(tx.data.Data), j)))
+//@   ensures result ==> has(pool.hashIndexMap, tx.Hash()) || (tx.data.Type == params.BoxTx && !types.boxBad(content(tx.data.Data)) && exists(j, 0, types.subCount(content(tx.data.Data)), has(pool.hashIndexMap, types.subHash(content(tx.data.Data), j))))
+//@   invariant @loop 0: 0 <= $k && $k <= $n && forall(j, 0, $k, !has(pool.hashIndexMap, types.subHash(content(tx.data.Data), j)))
+//@   nopanic
+
+// accepted => pending at the end, nothing else moved; refused => nothing changed
+//@ func (*TxPool).addTx
+//@   props C18
+//@   requires held(pool.RW) && wfPool(pool) && (tx != nil ==> wfPoolTx(tx)) && len(pool.txs) < 1<<40
+//@   modifies pool.txs, pool.cap, elems(pool.txs[0:cap(pool.txs)]), entries(pool.hashIndexMap)
+//@   ensures wfPool(pool)
+//@   ensures result == nil ==> tx != nil && len(pool.txs) == old(len(pool.txs)) + 1 && pool.txs[len(pool.txs) - 1] == tx
+//@   ensures result != nil ==> len(pool.txs) == old(len(pool.txs))
+//@   ensures forall(i, 0, old(len(pool.txs)), pool.txs[i] == old(pool.txs[i]))
+//@   ensures result == nil ==> !old(has(pool.hashIndexMap, tx.Hash()))
+//@   ensures sameArray(pool.txs, old(pool.txs)) || fresh(pool.txs)
+//@   invariant @loop 0: 0 <= $k && $k <= $n && wfPool(pool) && len(pool.txs) == old(len(pool.txs)) + 1 && pool.txs[len(pool.txs) - 1] == tx && forall(i, 0, old(len(pool.txs)), pool.txs[i] == old(pool.txs[i]))
+//@   invariant @loop 0: frameElems(*types.Transaction, pool.txs[0:cap(pool.txs)]) && frameMaps(pool.hashIndexMap)
+
+// told to delete => not pending afterwards (the transaction itself and, for a box, each of its sub-transactions); only slots the
+// hash index pointed at under one of those hashes are cleared
+//@ pred pointedAt(p *TxPool, h common.Hash, i int) = has(p.hashIndexMap, h) && p.hashIndexMap[h] == i
+//@ func (*TxPool).delTx
+//@   props C18
+//@   requires held(pool.RW) && wfPool(pool) && (tx != nil ==> types.boxOK(tx))
+//@   modifies elems(pool.txs), entries(pool.hashIndexMap)
+//@   ensures wfPool(pool) && len(pool.txs) == old(len(pool.txs)) && sameSlice(pool.txs, old(pool.txs))
+//@   ensures forall(i, 0, len(pool.txs), pool.txs[i] == old(pool.txs[i]) || (pool.txs[i] == nil && tx != nil && (old(pointedAt(pool, tx.Hash(), i)) || (tx.data.Type == params.BoxTx && !types.boxBad(content(tx.data.Data)) && exists(j, 0, types.subCount(content(tx.data.Data)), old(pointedAt(pool, types.subHash(content(tx.data.Data), j), i)))))))
+//@   ensures tx != nil ==> forall(i, 0, len(pool.txs), pool.txs[i] != nil ==> pool.txs[i].Hash() != tx.Hash())
+//@   ensures tx != nil && tx.data.Type == params.BoxTx && !types.boxBad(content(tx.data.Data)) ==> forall(j, 0, types.subCount(content(tx.data.Data)), forall(i, 0, len(pool.txs), pool.txs[i] != nil ==> pool.txs[i].Hash() != types.subHash(content(tx.data.Data), j)))
+//@   invariant @loop 0: 0 <= $k && $k <= $n && wfPool(pool) && len(pool.txs) == old(len(pool.txs)) && !has(pool.hashIndexMap, tx.Hash())
+//@   invariant @loop 0: forall(i, 0, len(pool.txs), pool.txs[i] == old(pool.txs[i]) || (pool.txs[i] == nil && (old(pointedAt(pool, tx.Hash(), i)) || exists(j, 0, $k, old(pointedAt(pool, types.subHash(content(tx.data.Data), j), i))))))
+//@   invariant @loop 0: forall(j, 0, $k, !has(pool.hashIndexMap, types.subHash(content(tx.data.Data), j)))
+//@   invariant @loop 0: forallKeys(h, pool.hashIndexMap, old(has(pool.hashIndexMap, h)) && old(pool.hashIndexMap[h]) == pool.hashIndexMap[h])
+//@   invariant @loop 0: (types.boxBad(content(tx.data.Data)) ==> $n == 0) && (!types.boxBad(content(tx.data.Data)) ==> $n == types.subCount(content(tx.data.Data)))
+//@   invariant @loop 0: fresh($s) && forall(j, 0, $n, $s[j] != nil && $s[j].Hash() == types.subHash(content(tx.data.Data), j))
+//@   invariant @loop 0: frameElems(*types.Transaction, pool.txs) && frameMaps(pool.hashIndexMap)
+//@   nopanic
+
+//@ func (*TxPool).gc
+//@   props C18
+//@   requires held(pool.RW) && wfPool(pool)
+//@   modifies pool.txs, pool.cap, pool.hashIndexMap
+//@   ensures wfPool(pool)
+//@   ensures forall(i, 0, old(len(pool.txs)), old(pool.txs[i]) != nil ==> i < len(pool.txs) && pool.txs[i] == old(pool.txs[i]))
+//@   ensures forall(i, 0, len(pool.txs), pool.txs[i] != nil ==> i < old(len(pool.txs)) && pool.txs[i] == old(pool.txs[i]))
+//@   nopanic
+
+// a selection hands out transactions that were pending when it started and are not expired, each at most once (they sit at
+// distinct positions, hence have distinct hashes); the only change to the pool is that slots are cleared (expired transactions)
+//@ func (*TxPool).GetTxs
+//@   props C18
+//@   requires wfPool(pool) && !held(pool.RW)
+//@   ensures wfPool(pool) && !held(pool.RW)
+//@   ensures len(result) <= max(size, 0)
+//@   ensures forall(j, 0, len(result), result[j] != nil && result[j].data.Expiration >= uint64(time))
+//@   ensures forall(j, 0, len(result), exists(i, 0, old(len(pool.txs)), old(pool.txs[i]) == result[j]))
+//@   ensures forall(a, 0, len(result), forall(b, 0, len(result), a != b ==> result[a].Hash() != result[b].Hash()))
+//@   ensures len(pool.txs) == old(len(pool.txs)) && forall(i, 0, len(pool.txs), pool.txs[i] == old(pool.txs[i]) || pool.txs[i] == nil)
+//@   invariant @loop 0: 0 <= $k && $k <= $n && $n == old(len(pool.txs)) && held(pool.RW) && wfPool(pool) && sameSlice($s, pool.txs) && sameSlice(pool.txs, old(pool.txs))
+//@   invariant @loop 0: fresh(result) && len(result) <= $k && len(result) < size && 0 < size
+//@   invariant @loop 0: forall(i, 0, len(pool.txs), pool.txs[i] == old(pool.txs[i]) || pool.txs[i] == nil)
+//@   invariant @loop 0: forall(j, 0, len(result), result[j] != nil && result[j].data.Expiration >= uint64(time) && exists(i, 0, $k, old(pool.txs[i]) == result[j]))
+//@   invariant @loop 0: forall(a, 0, len(result), forall(b, 0, len(result), a != b ==> result[a].Hash() != result[b].Hash()))
+//@   nopanic
+
+// the exported operations: each runs under the pool lock (taken and released; requires !held: no re-entrance) and keeps wfPool
+//@ func (*TxPool).IsEmpty
+//@   props C18
+//@   requires wfPool(pool) && !held(pool.RW)
+//@   ensures !held(pool.RW) && (result <==> len(pool.hashIndexMap) <= 0)
+//@   nopanic
+
+//@ func (*TxPool).AddTx
+//@   props C18
+//@   requires wfPool(pool) && !held(pool.RW) && (tx != nil ==> wfPoolTx(tx)) && len(pool.txs) < 1<<40
+//@   ensures wfPool(pool) && !held(pool.RW)
+//@   ensures result == nil ==> tx != nil && len(pool.txs) == old(len(pool.txs)) + 1 && pool.txs[len(pool.txs) - 1] == tx
+//@   ensures result != nil ==> len(pool.txs) == old(len(pool.txs))
+//@   ensures forall(i, 0, old(len(pool.txs)), pool.txs[i] == old(pool.txs[i]))
+
+//@ func (*TxPool).AddTxs
+//@   props C18
+//@   requires wfPool(pool) && !held(pool.RW) && forall(i, 0, len(txs), txs[i] != nil ==> wfPoolTx(txs[i])) && len(pool.txs) + len(txs) <= 1<<40 && (len(txs) == 0 || arrayOf(txs) != arrayOf(pool.txs))
+//@   ensures wfPool(pool) && !held(pool.RW) && 0 <= result && result <= len(txs) && len(pool.txs) == old(len(pool.txs)) + result
+//@   ensures forall(i, 0, old(len(pool.txs)), pool.txs[i] == old(pool.txs[i]))
+//@   invariant @loop 0: 0 <= $k && $k <= $n && $n == len(txs) && held(pool.RW) && wfPool(pool) && 0 <= count && count <= $k && len(pool.txs) == old(len(pool.txs)) + count
+//@   invariant @loop 0: forall(i, 0, old(len(pool.txs)), pool.txs[i] == old(pool.txs[i])) && unchanged(txs) && (len(txs) == 0 || arrayOf(txs) != arrayOf(pool.txs))
+
+//@ func (*TxPool).DelTxs
+//@   props C18
+//@   requires wfPool(pool) && !held(pool.RW) && forall(i, 0, len(txs), txs[i] != nil ==> types.boxOK(txs[i])) && (len(txs) == 0 || arrayOf(txs) != arrayOf(pool.txs))
+//@   ensures wfPool(pool) && !held(pool.RW)
+//@   ensures forall(k, 0, len(txs), txs[k] != nil ==> forall(i, 0, len(pool.txs), pool.txs[i] != nil ==> pool.txs[i].Hash() != txs[k].Hash()))
+//@   ensures forall(i, 0, len(pool.txs), pool.txs[i] != nil ==> i < old(len(pool.txs)) && pool.txs[i] == old(pool.txs[i]))
+//@   invariant @loop 0: 0 <= $k && $k <= $n && $n == len(txs) && held(pool.RW) && wfPool(pool) && sameSlice(pool.txs, old(pool.txs)) && unchanged(txs)
+//@   invariant @loop 0: forall(i, 0, len(pool.txs), pool.txs[i] == old(pool.txs[i]) || pool.txs[i] == nil)
+//@   invariant @loop 0: forall(k, 0, $k, txs[k] != nil ==> forall(i, 0, len(pool.txs), pool.txs[i] != nil ==> pool.txs[i].Hash() != txs[k].Hash()))
+//@   nopanic
